@@ -88,10 +88,20 @@ StdNt == <<chA, chC, chG, chT>>
 StdAa == <<chA, chR, chN, chD, chC, chQ, chE, chG, chH, chI, chL, chK, chM, chF, chP, chS, chT, chW, chY, chV>>
 AlphaChars(o) == IF o.al = AMINOACIDS THEN StdAa ELSE StdNt
 \* norm 0 = raw counts, 1 = divided by (number of rows + |alphabet| * pseudocount); optional log2
+\* normalisations: 0 none (counts), 1 column frequency, 2 column frequency over the frequency of the character in the
+\* whole alignment (case-folded counts; every character of the alphabet must occur, or the call fails), 3 column
+\* frequency over the uniform frequency 1/K  (4, "logo", is not a frequency normalisation: not specified here)
+TotalOcc(o, c) == SumSeq([i \in 1..Width(o) |-> Occ(ColUp(o, i), c)])
+PssmErr(o, norm) == norm \notin {0, 1, 2, 3} \/ (norm = 2 /\ \E k \in 1..Len(AlphaChars(o)) : TotalOcc(o, AlphaChars(o)[k]) = 0)
 PssmCell(o, c, i, log, pc, norm) ==
   LET cnt == FAdd(FInt(Occ(ColUp(o, i), c)), pc)
-      nf  == IF norm = 0 THEN FInt(1)
-             ELSE FDiv(FInt(1), FAdd(FInt(Len(o.rows)), FMul(FInt(Len(AlphaChars(o))), pc)))
+      K   == Len(AlphaChars(o))
+      col == FDiv(FInt(1), FAdd(FInt(Len(o.rows)), FMul(FInt(K), pc)))
+      all == SumSeq([k \in 1..K |-> TotalOcc(o, AlphaChars(o)[k])])
+      nf  == CASE norm = 0 -> FInt(1)
+               [] norm = 1 -> col
+               [] norm = 2 -> FDiv(col, FDiv(FInt(TotalOcc(o, c)), FInt(all)))
+               [] OTHER    -> FDiv(col, FDiv(FInt(1), FInt(K)))
       v   == FMul(cnt, nf)
   IN IF log THEN FDiv(FLn(v), FLn(FInt(2))) ELSE v
 
